@@ -158,7 +158,8 @@ func TestVerifC17(t *testing.T) { //nolint:cyclop,maintidx
 			offs = append(offs, uint16(rng.UintN(65536))) //nolint:gosec
 		}
 		var agent *Agent
-		for i, off := range offs {
+		for i := 0; i < 2*len(offs); i++ {
+			off := offs[i/2] // every offset through both configuration paths
 			var a *Agent
 			var err error
 			if i%2 == 0 {
